@@ -819,8 +819,10 @@ def search_debug(drv, rng, budget):
         for k in range(n):
             c = rng.randrange(6)
             v = "x%d" % k
+            # non-ASCII text INSIDE a call (columns count characters, byte lengths differ)
+            cm = rng.choice(["", "", "/* a ≤ b */ ", "/* größer? */ ", "/* ✓ */"])
             if c == 0:
-                inner = "jet::eq_8(a,%sa)" % sp()
+                inner = "jet::eq_8(a,%s%sa)" % (sp(), cm)
                 t = "assert!(%s)" % inner
                 calls += [(inner, "Jet"), (t, "Assert")]
                 lines.append("    %s;" % t)
@@ -837,7 +839,7 @@ def search_debug(drv, rng, budget):
                 arg = "(a,%s%d)" % (sp(), k)
                 calls.append((arg, "Debug")); lines.append("    let %s: (u8, u8) = dbg!(%s);" % (v, arg))
             else:
-                t = "jet::add_8(a,%s%d)" % (sp(), k)
+                t = "jet::add_8(a,%s%s%d)" % (sp(), cm, k)
                 calls.append((t, "Jet")); lines.append("    let %s: (bool, u8) = %s;" % (v, t))
         if fail:
             inner = "jet::eq_8(a, %d)" % 201
@@ -852,7 +854,7 @@ def search_debug(drv, rng, budget):
         if rng.random() < 0.4:
             # non-ASCII text is legal in comments; columns count characters, not bytes
             k2 = rng.randrange(1, len(lines))
-            lines[k2] = "    /* é ≤ ü */" + lines[k2].lstrip(" ").join([" ", ""])
+            lines[k2] = "    " + rng.choice(["/* é ≤ ü */", "/* ✓✓✓ */", "/* ééééééé */", "/* 漢字 */", "/* ñ */", "/* ≤≤ */", "/* 🦀 */"]) + lines[k2].lstrip(" ").join([" ", ""])
         if it == 7:
             # many call sites: every one keeps its own marker
             for q in range(300):
@@ -1516,6 +1518,10 @@ def search_totality(drv, rng, budget):
              "type T = (u8, bool);\nfn f(x: T) -> u8 { let (a, b): T = x; a }\nfn main() { let y: u8 = f((1, true)); }\n",
              "fn main() {\n    let l: List<u8, 4> = list![1, 2];\n    let o: Option<u16> = Some(0xffff);\n    let e: Either<u1, u2> = Left(0b1);\n    match e { Left(x: u1) => assert!(true), Right(y: u2) => panic!(), }\n}\n",
              "fn main() { let x: u256 = 0x0000000000000000000000000000000000000000000000000000000000000001; let w: u8 = witness::W; }\n"]
+    # non-ASCII text in front of and inside tracked calls on the same line (byte offsets and character columns differ)
+    progs += ["fn main() {\n    /* ✓✓✓ */ assert!(true);\n    let a: u8 = 1; /* ééééééé */ assert!(jet::eq_8(a, /* 漢字 */ 1));\n}\n",
+              "fn main() {\n    let a: u8 = 1;\n    /* ≤ */ let b: (bool, u8) = /* 🦀 */ jet::add_8(a, /* größer */ 2); /* ñ */ assert!(jet::eq_8(a, 1)); // é\n    let c: u8 = dbg!(/* ü */ a);\n}\n",
+              "// ✓\nfn f(x: u8) -> u8 { /* 漢 */ unwrap(Some(x)) }\nfn main() { /* ééé */ let y: u8 = f(/* ✓✓ */ 1); /* ü */ assert!(jet::eq_8(y, 1)); }"]
     types = ["u8", "(u8, u16)", "[u32; 7]", "List<bool, 8>", "Option<Either<u1, (u2, u4)>>", "()", "(u128,)", "[(); 0]", "Foo", "Foo\n\n", "u8\n", ""]
     values = [("5", "u8"), ("(1, 2)", "(u8, u16)"), ("[1, 2, 3]", "[u8; 3]"), ("list![1]", "List<u8, 2>"), ("0xab", "u8"), ("0b1", "u1"), ("0x", "u4"),
               ("0b_", "u8"), ("Some(Left(1))", "Option<Either<u8, u8>>"), ("0x0102", "[u8; 2]"), ("1_0", "u8"), ("0b" + "1" * 16, "u16"), ("0b" + "0" * 32, "u32"),
@@ -1551,7 +1557,7 @@ def search_totality(drv, rng, budget):
             n += 1
             continue
         if kind == 0:
-            t = rng.choice(progs); t = t if n < 20 else mutate(t)
+            t = progs[(n // 6) % len(progs)] if n < 6 * len(progs) else mutate(rng.choice(progs))      # every sample unmutated first
             ops = [["render_err", hx(t)], ["run", hx(t), hx(""), hx("mod witness { const W: u8 = 1; }"), "1"]]
         elif kind == 1:
             t = rng.choice(types); t = t if n < 60 else mutate(t)
